@@ -30,11 +30,13 @@ E2E_RULE = ("blocks are generated from a typed mini-language (families: mixed tr
             "each block runs free (OS scheduling) and under seeded controller schedules (random / PCT / sticky) per configuration; oracle = in-order stock revm; compared: every outcome, status, full bundle (state, original values, statuses, contracts, reverts, size accounting) and every applied commit (result + state changes) against the in-order transaction; distinct = distinct (spec, tx list); non-trivial = all (>= 2 txs touching shared accounts)")
 
 WITNESS = {"sub": "witness", "quick": {}, "thorough": {}, "timeout": 600}
+SCHED_CONF = {"sub": "sched-conf", "quick": {"cases": 60, "schedules": 3}, "thorough": {"cases": 2500, "schedules": 4, "max-txs": 10}, "timeout": 7000}
+SCHED_CONF_RULE = ("; sched-conformance: blocks of the conformance family (transfers + data-dependent storage contracts, non-zero fees so that the beneficiary is never read) run on the real scheduler under seeded controller schedules with 2-3 workers; the totally ordered hook-event trace is replayed through the PROVEN step function of Model/Sched.lean: each event must be an enabled model action and every observed value (read version and value, estimate/blocked/new-location flags, validation verdict, rewind and validation timestamps, finality lower bound, commit order) must equal the model's; each transaction's program is reconstructed from the observed incarnations (equal values read => equal behaviour, else reported)")
 
 PROPS = {
     "C01": {
-        "harness": [e2e("mixed,lifecycle,code,invalid,precompile", 100, 3000), WITNESS],
-        "rule": E2E_RULE,
+        "harness": [e2e("mixed,lifecycle,code,invalid,precompile", 100, 3000), SCHED_CONF, WITNESS],
+        "rule": E2E_RULE + SCHED_CONF_RULE,
         "trusted_base": E2E_TRUST,
         "modelled": ["a transaction as a deterministic interaction tree over reads (Model/Block.lean); in-order semantics `ideal`; multi-version read resolution `view`"],
         "assumptions": ["monitored: an incarnation's result is a function of the values returned to it (determinism of revm)"],
@@ -44,8 +46,8 @@ PROPS = {
     },
     "C02": {
         "lean_modules": ["Props.C02"],
-        "harness": [e2e("mixed,lifecycle,code,invalid,precompile", 100, 3000, label="per-commit-oracle"), WITNESS],
-        "rule": E2E_RULE + "; for C02 the decisive comparison is per commit: every applied commit event (txid, result, finalized state changes) must be the next index, exactly once, and equal the in-order result and state of that transaction",
+        "harness": [e2e("mixed,lifecycle,code,invalid,precompile", 100, 3000, label="per-commit-oracle"), SCHED_CONF, WITNESS],
+        "rule": E2E_RULE + SCHED_CONF_RULE + "; for C02 the decisive comparison is per commit: every applied commit event (txid, result, finalized state changes) must be the next index, exactly once, and equal the in-order result and state of that transaction",
         "trusted_base": E2E_TRUST,
         "modelled": ["execute_task / validate / mark_mv_estimate / rewind_validation_to / lock_finality_candidate / run_commit_loop of src/scheduler.rs and src/scheduler/context.rs as Model/Sched.lean: one action per shared-memory access, worker control state attached to the transaction it holds the lock of (any number of workers)", "choice of which transaction a worker claims, and the vcur pre-filter of finality, are over-approximated (arbitrary / dropped)", "beneficiary history reads are not part of this model (C07)"],
         "assumptions": ["reads with no preceding MV entry return the block-start value (monitored assumption 7 of DESIGN.md)", "determinism of a transaction as a function of the values it reads"],
@@ -105,9 +107,10 @@ PROPS = {
         "explanation": "Theorems one_winner / returned_implies_one_winner / losers_touch_nothing / untouched_before_execute over all interleavings of any number of callers.",
     },
     "C15": {
-        "lean_modules": ["Props.C15"],
+        "lean_modules": ["Props.C15", "Props.C02"],
         "harness": [
             {"sub": "kernel-ctx", "quick": {"cases": 600}, "thorough": {"cases": 20000}, "timeout": KERNEL_TIMEOUT},
+            SCHED_CONF,
         ],
         "rule": "each case = 2-3 real threads running random scripts of executed/next_validation_idx/rewind_validation_to/logical_timestamp/execution_frontier on the real SchedulerContext (2-5 txs) under a seeded random/PCT/sticky controller schedule; the totally ordered hook-event trace is replayed through the Lean step functions (every event must be the enabled next model step with equal observed values, return values and final cursors/timestamps must agree); distinct = distinct event traces; all are non-trivial (>= 2 threads, >= 3 calls each)",
         "trusted_base": COMMON_TRUST,
